@@ -28,6 +28,8 @@ void w_canonM(Py_ssize_t& o, const FixedMatrix<int>& a, const int& i) { o = a.co
 void w_canonS(size_t& o, const Py_ssize_t& i) { o = SFA3::canonical_index(i); }
 void w_get(int& o, const FixedArray<int>& a, const Py_ssize_t& i) { o = a.getitem(i); }
 void w_slice(const FixedArray<int>& a, PyObject* const& idx, size_t& start, size_t& end, Py_ssize_t& step, size_t& len) { a.extract_slice_indices(idx, start, end, step, len); }
+void w_get2d(int& o, FixedArray2D<int>& a, const Py_ssize_t& i, const Py_ssize_t& j) { o = a.getitem(i, j); }
+void w_slice2d(const FixedArray2D<int>& a, PyObject* const& idx, const size_t& n, size_t& start, size_t& end, Py_ssize_t& step, size_t& len) { a.extract_slice_indices(idx, n, start, end, step, len); }
 void w_setsc(FixedArray<int>& a, PyObject* const& idx, const int& v) { a.setitem_scalar(idx, v); }
 void w_setvec(FixedArray<int>& a, PyObject* const& idx, const FixedArray<int>& d) { a.setitem_vector(idx, d); }
 void w_getslice(FixedArray<int>& o, const FixedArray<int>& a, PyObject* const& idx) { o = a.getslice(idx); }
@@ -181,6 +183,85 @@ def main_idx(rep, ws):
         rep.ob('FixedArray::extract_slice_indices', 'R19.idx', VIOLATED if bad else HOLDS, bad or 'integer: (c, c+1, 1, 1) with c the canonical index; slice: the fields adjusted by CPython for this length, passed on unchanged', where)
     except (vg.Unsupported, P.NotPoly) as e:
         rep.ob('FixedArray::extract_slice_indices', 'R19.idx', UNDECIDED, repr(e)[:300], where)
+    # ---- FixedArray2D
+    n += 1
+    try:
+        S = I.run('w_get2d'); o = S.out('a0', 0, 4, 'i32')
+        iv, jv = T.inp('a2', 0, 8, 'i64'), T.inp('a3', 0, 8, 'i64')
+        ins = [x for x in _inputs(o) if x is not iv and x is not jv and x.attr[2] == 8]
+        def compared_with(v):
+            out_ = []
+            seen_ = set(); st_ = [o]
+            while st_:
+                x = st_.pop()
+                if x.id in seen_: continue
+                seen_.add(x.id); st_.extend(x.args)
+                if x.op == 'icmp' and find(x, lambda y: y is v) is not None: out_ += [z for z in ins if find(x, lambda y: y is z) is not None]
+            return sorted(set(out_), key=lambda z: z.id)
+        Lx, Ly = compared_with(iv), compared_with(jv)
+        if len(Lx) != 1 or len(Ly) != 1 or Lx[0] is Ly[0]: raise vg.Unsupported('the two lengths were not identified')
+        Lx, Ly = Lx[0], Ly[0]
+        bad = None
+        for (Lxv, Lyv) in ((1, 1), (2, 3), (3, 2)):
+            for i in range(-Lxv - 1, Lxv + 1):
+                for j in range(-Lyv - 1, Lyv + 1):
+                    r = T.subst(o, {iv: T.const_int(64, i & (2 ** 64 - 1)), jv: T.const_int(64, j & (2 ** 64 - 1)), Lx: T.const_int(64, Lxv), Ly: T.const_int(64, Lyv)})
+                    wi = i if 0 <= i < Lxv else (i + Lxv if -Lxv <= i < 0 else None); wj = j if 0 <= j < Lyv else (j + Lyv if -Lyv <= j < 0 else None)
+                    if wi is None or wj is None:
+                        if r.op != 'throw': bad = 'index (%d, %d) of a %d x %d array does not raise' % (i, j, Lxv, Lyv)
+                    elif r.op != 'sel': bad = 'index (%d, %d) of a %d x %d array: %s' % (i, j, Lxv, Lyv, T.show(r, 3)[:80])
+                    else:
+                        ctx = P.Ctx(); off = ctx.rat(r.args[1])
+                        st = sorted([x for x in _inputs(r.args[1]) if x.attr[2] == 8], key=lambda z: z.attr[1])
+                        if len(st) != 2: bad = 'element offset %s does not use the two strides' % T.show(r.args[1], 3)[:80]
+                        else:
+                            sx, sy = (P.patom(ctx.key(z)) for z in st)
+                            want = P.pscale(P.pmul(sx, P.padd(P.pscale(sy, wj), P.pconst(wi))), 4)
+                            if not ctx.requal(off, (want, P.pconst(1))): bad = 'index (%d, %d) of a %d x %d array reads at offset %s, expected stride.x * (%d * stride.y + %d)' % (i, j, Lxv, Lyv, P.show_rat(off, ctx)[:80], wj, wi)
+                    if bad: break
+                if bad: break
+            if bad: break
+        rep.ob('FixedArray2D::getitem', 'R19.idx', VIOLATED if bad else HOLDS, bad or 'reads element stride.x * (cj * stride.y + ci) for the canonical indices (ci, cj), raises otherwise', 'src/python/PyImath/PyImathFixedArray2D.h')
+    except (vg.Unsupported, P.NotPoly, IndexError) as e:
+        rep.ob('FixedArray2D::getitem', 'R19.idx', UNDECIDED, repr(e)[:300], 'src/python/PyImath/PyImathFixedArray2D.h')
+    n += 1
+    try:
+        S = I.run('w_slice2d')
+        outs = [S.out(b, 0, 8, 'i64') for b in ('a3', 'a4', 'a5', 'a6')]
+        Lv = T.inp('a2', 0, 8, 'i64')
+        is_slice = find(outs[0], lambda x: x.op == 'ptrcmp' and any('PySlice_Type' in str(a.attr) for a in x.args))
+        is_long = find(outs[0], lambda x: x.op == 'icmp' and x.attr == 'eq' and any(a.op == 'and' and any(b.op == 'const' and b.attr[1] == (1 << 24) for b in a.args) for a in x.args))
+        if is_slice is None or is_long is None: raise vg.Unsupported('type tests on the index object not recognised')
+        bad = None
+        oi = [T.resolve(x, {is_slice: False, is_long: False}) for x in outs]
+        call = find(oi[0], lambda x: x.op == 'call' and 'AsSsize_t' in str(x.attr))
+        if call is None: bad = 'an integer index is not converted with PyLong_AsSsize_t'
+        else:
+            for L in range(0, 4):
+                for i in range(-2 * L - 2, 2 * L + 3):
+                    rs = [T.subst(x, {call: T.const_int(64, i & (2 ** 64 - 1)), Lv: T.const_int(64, L)}) for x in oi]
+                    rs = [r.args[0].args[2] if (r.op == 'sel' and r.args[0].op == 'mem' and len(r.args[0].args) == 3 and r.args[0].args[1].op == 'const' and r.args[1].op == 'const'
+                                                 and r.args[0].args[1].attr[1] == r.args[1].attr[1]) else r for r in rs]
+                    want = i if 0 <= i < L else (i + L if -L <= i < 0 else None)
+                    if want is None:
+                        if any(r.op != 'throw' for r in rs): bad = 'integer index %d on length %d does not raise' % (i, L)
+                    else:
+                        got = [T.signed(r) if r.op == 'const' else None for r in rs]
+                        if got != [want, want + 1, 1, 1]: bad = 'integer index %d on length %d gives (start, end, step, length) = %s, expected (%d, %d, 1, 1)' % (i, L, got, want, want + 1)
+                    if bad: break
+                if bad: break
+        if not bad:
+            os_ = [T.resolve(x, {is_slice: True}) for x in outs]
+            adj = find(os_[3], lambda x: x.op == 'call' and 'PySlice_AdjustIndices' in str(x.attr))
+            if adj is None: bad = 'a slice is not adjusted with PySlice_AdjustIndices'
+            elif adj.args[0] is not Lv: bad = 'PySlice_AdjustIndices is given %s, not the length of the dimension' % T.show(adj.args[0], 2)
+            else:
+                leaves = [[lf for lits, lf in T.leaves(x, 256) if lf.op != 'throw'] for x in os_]
+                if not all(len(l) == 1 for l in leaves): bad = 'the slice fields are modified after adjustment'
+                elif leaves[3][0] is not adj: bad = 'slicelength is not the value returned by PySlice_AdjustIndices'
+        rep.ob('FixedArray2D::extract_slice_indices', 'R19.idx', VIOLATED if bad else HOLDS, bad or 'integer: (c, c+1, 1, 1); slice: the fields adjusted by CPython for the length of the dimension', 'src/python/PyImath/PyImathFixedArray2D.h')
+    except (vg.Unsupported, P.NotPoly) as e:
+        rep.ob('FixedArray2D::extract_slice_indices', 'R19.idx', UNDECIDED, repr(e)[:300], 'src/python/PyImath/PyImathFixedArray2D.h')
     # ---- loops
     Il = vg.Interp(modl)
     fns = {f['name']: f for f in modl['functions']}
